@@ -7,10 +7,10 @@
 set -e
 cd "$(dirname "$0")"
 H=$(pwd)
-REPO=${VERIF_REPO:-/repo}
+REPO=$(readlink -f "${VERIF_REPO:-/repo}")
 B=${VERIF_C20_BUILD:-$(cd .. && pwd)/build}
 mkdir -p $B/c20
-export GOFLAGS= GOPROXY=off GOSUMDB=off GOTOOLCHAIN=local CARGO_NET_OFFLINE=true
+export GOFLAGS=-mod=mod GOPROXY=off GOSUMDB=off GOTOOLCHAIN=local CARGO_NET_OFFLINE=true
 cp $REPO/go.mod $B/c20/go.mod
 cp $REPO/go.sum $B/c20/go.sum
 sed 's/^package main$/package playtak/' cmd/runimpl/oracle_rules.go > $B/c20/oracle_rules.go
